@@ -24,7 +24,7 @@ DESIGN_REF = "DESIGN.md §3.1, §4 C07"
 RULE = (
     "cases = (config, initial tree, bursts incl. ext ops / makedirs / api_resched / api_sched2 - one case in three without "
     "the pacing condition of C01: directory names re-used and contents touched back to back -, optional race plan "
-    "(lookup call index 0-11, action delete|rename|recreate), optional final root deletion).  Oracle: no library thread "
+    "(lookup call index 0-11, action delete|rename|recreate|blink = gone for that one call and back with a file inside), optional final root deletion).  Oracle: no library thread "
     "ends with an unhandled exception; afterwards a probe in the root and in every start directory that kept path and "
     "inode is reported; root deletion gives exactly one DirDeletedEvent(root) (none if the watch's event filter does not "
     "admit it), nothing after it, and a stopped emitter - also exhaustively over recursive x emitter kind x 6 event "
@@ -63,9 +63,21 @@ def _maybe_inject(path):
             if act == "rename":
                 os.rename(p, p + "_zz")
             else:
-                fsops._rmtree(p) if os.path.isdir(p) and not os.path.islink(p) else os.unlink(p)
+                was_dir = os.path.isdir(p) and not os.path.islink(p)
+                fsops._rmtree(p) if was_dir else os.unlink(p)
                 if act == "recreate":
                     os.mkdir(p)
+                elif act == "blink" and was_dir:
+                    # gone for the call that is about to be made, back - with a file inside - right after it
+                    def post(p=p):
+                        try:
+                            os.mkdir(p)
+                            fsops._touch(os.path.join(p, "zz"))
+                        except OSError:
+                            pass
+
+                    _race["hits"].append((idx, act, os.path.relpath(p, root)))
+                    return post
             _race["hits"].append((idx, act, os.path.relpath(p, root)))
     except OSError:
         pass
@@ -82,8 +94,12 @@ def install_proxies():
     real_add = inotify_c.inotify_add_watch
 
     def add_watch(fd, path, mask):
-        _maybe_inject(path)
-        return real_add(fd, path, mask)
+        post = _maybe_inject(path)
+        try:
+            return real_add(fd, path, mask)
+        finally:
+            if post:
+                post()
 
     inotify_c.inotify_add_watch = add_watch
 
@@ -327,7 +343,7 @@ def cases(draw, tier):
     if unpaced:
         case["unpaced"] = True
     if draw(st.integers(0, 2)) == 0:
-        case["race"] = {"at": draw(st.integers(0, 11)), "action": draw(st.sampled_from(["delete", "rename", "recreate"]))}
+        case["race"] = {"at": draw(st.integers(0, 11)), "action": draw(st.sampled_from(["delete", "rename", "recreate", "blink"]))}
     if draw(st.integers(0, 4)) == 0:
         bursts.append([["rmroot"]])
     return case
